@@ -198,6 +198,10 @@ impl Drop for InFlightGuard {
 /// [`CommitInFlight`].
 type AbandonedCommits = Arc<Mutex<HashSet<Path>>>;
 
+/// Keys whose commit-point write is in flight right now; see
+/// [`CommitInFlight`].
+type PendingCommits = Arc<Mutex<HashSet<Path>>>;
+
 /// Held across the backend call that writes or deletes a commit point.
 ///
 /// If the surrounding future is dropped while that call is pending
@@ -207,21 +211,39 @@ type AbandonedCommits = Arc<Mutex<HashSet<Path>>>;
 /// unsettled records the key instead, and the next cached read of that key
 /// invalidates its cache entry first (see
 /// [`SidecarStore::forget_abandoned_commit`]).
+///
+/// While the guard is alive the key is also registered as *pending*: the
+/// backend may already hold the new commit point although the cache still
+/// holds the previous document, so cached reads of that key wait for the
+/// commit to settle instead of answering from the cache — a listing that goes
+/// to the backend would otherwise report the new state and a later cached
+/// `head` the old one.
 struct CommitInFlight {
+    pending: PendingCommits,
     abandoned: AbandonedCommits,
     key: Option<Path>,
 }
 
 impl CommitInFlight {
-    /// The backend call returned: its outcome was observed and handled.
+    /// The backend call returned, its outcome was observed and the cache
+    /// reflects it.
     fn settle(mut self) {
-        self.key = None;
+        if let Some(key) = self.key.take() {
+            self.pending
+                .lock()
+                .unwrap_or_else(|err| err.into_inner())
+                .remove(&key);
+        }
     }
 }
 
 impl Drop for CommitInFlight {
     fn drop(&mut self) {
         if let Some(key) = self.key.take() {
+            self.pending
+                .lock()
+                .unwrap_or_else(|err| err.into_inner())
+                .remove(&key);
             self.abandoned
                 .lock()
                 .unwrap_or_else(|err| err.into_inner())
@@ -266,6 +288,8 @@ pub(crate) struct SidecarStore<T: ObjectStore, M: SidecarMeta> {
     /// Keys whose cached document may be stale because a commit-point write
     /// was cancelled mid-flight; see [`CommitInFlight`].
     abandoned_commits: AbandonedCommits,
+    /// Keys whose commit-point write is in flight; see [`CommitInFlight`].
+    pending_commits: PendingCommits,
 }
 
 impl<T: ObjectStore, M: SidecarMeta> SidecarStore<T, M> {
@@ -279,15 +303,31 @@ impl<T: ObjectStore, M: SidecarMeta> SidecarStore<T, M> {
             meta_cache,
             in_flight: Arc::new(Mutex::new(HashSet::new())),
             abandoned_commits: Arc::new(Mutex::new(HashSet::new())),
+            pending_commits: Arc::new(Mutex::new(HashSet::new())),
         }
     }
 
     /// Arms a [`CommitInFlight`] guard for `location`.
     fn commit_in_flight(&self, location: &Path) -> CommitInFlight {
+        self.pending_commits
+            .lock()
+            .unwrap_or_else(|err| err.into_inner())
+            .insert(location.clone());
         CommitInFlight {
+            pending: self.pending_commits.clone(),
             abandoned: self.abandoned_commits.clone(),
             key: Some(location.clone()),
         }
+    }
+
+    /// Whether a commit-point write of `location` is in flight, i.e. the
+    /// cached document may already have been replaced on the backend.
+    fn commit_pending(&self, location: &Path) -> bool {
+        let set = self
+            .pending_commits
+            .lock()
+            .unwrap_or_else(|err| err.into_inner());
+        !set.is_empty() && set.contains(location)
     }
 
     /// Drops the cached document of a key whose last commit-point write was
@@ -421,7 +461,11 @@ impl<T: ObjectStore, M: SidecarMeta> SidecarStore<T, M> {
     /// section.
     pub(crate) async fn get_meta(&self, location: &Path) -> Result<Arc<M>> {
         self.forget_abandoned_commit(location).await;
-        if let Some(meta) = self.meta_cache.get(location).await {
+        // With a commit of this key in flight, queue behind it in the per-key
+        // section below rather than answer from a document it may replace.
+        if !self.commit_pending(location)
+            && let Some(meta) = self.meta_cache.get(location).await
+        {
             return Ok(meta);
         }
 
@@ -505,6 +549,10 @@ impl<T: ObjectStore, M: SidecarMeta> SidecarStore<T, M> {
         // not known to be "nothing written" (see below).
         let mut commit_failed: Option<Error> = None;
         let commit_failed_out = &mut commit_failed;
+        // Armed right before the commit-point put and settled only once the
+        // cache has taken the closure's verdict.
+        let mut pending: Option<CommitInFlight> = None;
+        let pending_out = &mut pending;
         let mut f = Some(f);
         let rt = self
             .meta_cache
@@ -554,8 +602,8 @@ impl<T: ObjectStore, M: SidecarMeta> SidecarStore<T, M> {
                     source: format!("Failed to serialize Metadata for path {location}: {err:?}")
                         .into(),
                 })?;
-                let pending = self.commit_in_flight(location);
-                let committed = self
+                *pending_out = Some(self.commit_in_flight(location));
+                match self
                     .store
                     .put_opts(
                         &meta_path,
@@ -565,9 +613,8 @@ impl<T: ObjectStore, M: SidecarMeta> SidecarStore<T, M> {
                             ..Default::default()
                         },
                     )
-                    .await;
-                pending.settle();
-                match committed {
+                    .await
+                {
                     Ok(_) => {}
                     // A refused conditional create is a known outcome:
                     // nothing was written and the cache stays as it is.
@@ -590,7 +637,11 @@ impl<T: ObjectStore, M: SidecarMeta> SidecarStore<T, M> {
                 }
                 Ok::<_, Error>(Op::Put(Arc::new(val)))
             })
-            .await?;
+            .await;
+        if let Some(pending) = pending {
+            pending.settle();
+        }
+        let rt = rt?;
         if let Some(err) = commit_failed {
             return Err(err);
         }
@@ -626,7 +677,10 @@ impl<T: ObjectStore, M: SidecarMeta> SidecarStore<T, M> {
         // Set when deleting the commit point failed with an unknown outcome.
         let mut commit_failed: Option<Error> = None;
         let commit_failed_out = &mut commit_failed;
-        self.meta_cache
+        let mut pending: Option<CommitInFlight> = None;
+        let pending_out = &mut pending;
+        let rt = self
+            .meta_cache
             .entry(location.clone())
             .and_try_compute_with(|_entry| async move {
                 // Resolve the payload from the backend, not from the
@@ -655,10 +709,8 @@ impl<T: ObjectStore, M: SidecarMeta> SidecarStore<T, M> {
                     Err(err) => return Err(err),
                 }
 
-                let pending = self.commit_in_flight(location);
-                let deleted = self.store.delete(&self.meta_path(location)).await;
-                pending.settle();
-                match deleted {
+                *pending_out = Some(self.commit_in_flight(location));
+                match self.store.delete(&self.meta_path(location)).await {
                     Ok(()) | Err(Error::NotFound { .. }) => {}
                     // The commit point may be gone: drop the cached document
                     // (see `update_meta_with`) and report the failure.
@@ -666,7 +718,11 @@ impl<T: ObjectStore, M: SidecarMeta> SidecarStore<T, M> {
                 }
                 Ok::<_, Error>(Op::Remove)
             })
-            .await?;
+            .await;
+        if let Some(pending) = pending {
+            pending.settle();
+        }
+        rt?;
         if let Some(err) = commit_failed {
             return Err(err);
         }
@@ -756,7 +812,12 @@ impl<T: ObjectStore, M: SidecarMeta> SidecarStore<T, M> {
     ) -> Result<Option<ObjectMeta>> {
         let location = self.strip_meta_prefix(obj.location);
         self.forget_abandoned_commit(&location).await;
-        let meta: Arc<M> = if let Some(meta) = self.meta_cache.get(&location).await {
+        let cached = if self.commit_pending(&location) {
+            None
+        } else {
+            self.meta_cache.get(&location).await
+        };
+        let meta: Arc<M> = if let Some(meta) = cached {
             meta
         } else {
             match self.fetch_meta_bytes(&location).await {
